@@ -1428,10 +1428,15 @@ class PackBasedObjectStore(PackCapableObjectStore, PackedObjectContainer):
                 break
             for name, pack in todo:
                 visited.add(name)
+                # Take the ids before handing any of them out: a lookup made
+                # by the consumer can evict and close this pack, and a
+                # generator suspended in its index would then fail.
                 try:
-                    yield from pack
+                    shas = list(pack)
                 except PackFileDisappeared as exc:
                     self._evict_pack(exc.obj)
+                    continue
+                yield from shas
         yield from self._iter_alternate_objects()
 
     def contains_loose(self, sha: ObjectID) -> bool:
